@@ -241,6 +241,11 @@ def part_embed(ctx, cfg):
     for r in r_emb:
         for k, v in sorted(r.items()):
             ctx.observe(str(k), v)
+    # the same Composite object builds a second engine after the first ran
+    r_again, _ = run({'composite': emb}, T, 'again')
+    ctx.claim('C16.entry_points', same(r_emb, r_again),
+              sig='composite-object-used-twice', info=lambda: dict(
+                  path=path, first=r_emb, second=r_again))
     c2 = C(conf).generate(path=path)
     r_parts, _ = run(dict(processes=c2['processes'], steps=c2['steps'],
                           flow=c2['flow'], topology=c2['topology']), T,
